@@ -3,6 +3,7 @@ package node
 import (
 	"fmt"
 
+	"github.com/mosaicnetworks/babble/src/crypto/keys"
 	hg "github.com/mosaicnetworks/babble/src/hashgraph"
 	"github.com/mosaicnetworks/babble/src/net"
 	"github.com/mosaicnetworks/babble/src/node/state"
@@ -101,5 +102,84 @@ func VerifHarness_C08_O2join() {
 	}
 	verifAssert("hostile-join-not-queued", len(vn.n.core.internalTransactionPool) == 0)
 	verifCrashFree("fast-forward-request", func() { vn.rpc(&net.FastForwardRequest{FromID: verifNondetUint32("ffFrom")}) })
+	verifReach("end")
+}
+
+// C08/O5 — a hostile fast-forward RESPONSE (structurally valid after JSON
+// decoding, hostile contents) must not crash the catching-up node: nil entries
+// in the frame's peer list, event list, roots and peer-set history, a frame
+// event without core, a root holding a nil event, negative rounds, a nil
+// signature map.  The block is otherwise correctly signed by the frame's
+// validators, so that processing goes as deep as possible.
+func VerifHarness_C08_O5() {
+	vc := verifNewCore(3, 0)
+	vc.seedHistory()
+	members := []*peers.Peer{verifPeer(0), verifPeer(1), verifPeer(2)}
+	frame := verifMkFrame(members, 5)
+	hostile := verifChoice("hostile", 15)
+	switch hostile {
+	case 1:
+		frame.Peers = []*peers.Peer{members[0], nil, members[2]}
+	case 2:
+		frame.Events = []*hg.FrameEvent{nil}
+	case 3:
+		frame.Events = []*hg.FrameEvent{{Core: nil, Round: 5, LamportTimestamp: 1}}
+	case 4:
+		frame.Roots[members[1].PubKeyString()] = nil
+	case 5:
+		frame.Roots[members[1].PubKeyString()] = &hg.Root{Events: []*hg.FrameEvent{nil}}
+	case 6:
+		frame.PeerSets[3] = []*peers.Peer{nil}
+	case 7:
+		frame.Round = verifNondetInt("frameRound")
+	case 8:
+		frame.Roots = nil
+	case 9:
+		frame.PeerSets = nil
+	case 10:
+		frame.Peers = nil
+	case 11:
+		frame.Roots[members[1].PubKeyString()] = &hg.Root{Events: []*hg.FrameEvent{{Core: nil}}}
+	case 12:
+		// an event without its two parent slots
+		ev := hg.NewEvent(nil, nil, nil, nil, keysPub(1), 4)
+		frame.Events = []*hg.FrameEvent{{Core: ev, Round: 5, LamportTimestamp: 1}}
+	case 13:
+		ev := hg.NewEvent(nil, nil, nil, []string{"only-one"}, keysPub(1), 4)
+		frame.Roots[members[1].PubKeyString()] = &hg.Root{Events: []*hg.FrameEvent{{Core: ev, Round: 4, LamportTimestamp: 1}}}
+	case 14:
+		// an event of a creator the frame does not list, with a hostile signature
+		ev := hg.NewEvent(nil, nil, nil, []string{"", ""}, verifNondetBytes("creator", 2), verifNondetInt("evIndex"))
+		ev.Signature = verifNondetString("evSig", 3)
+		frame.Events = []*hg.FrameEvent{{Core: ev, Round: verifNondetInt("evRound"), LamportTimestamp: verifNondetInt("evLT")}}
+	}
+	var block *hg.Block
+	crashedEarly := verifCrashFree("building-the-response-is-harness-code", func() {
+		var fh []byte
+		fh, _ = frame.Hash()
+		var ps []*peers.Peer
+		for _, p := range frame.Peers {
+			if p != nil {
+				ps = append(ps, p)
+			}
+		}
+		block = hg.NewBlock(3, frame.Round, fh, ps, [][]byte{[]byte("tx")}, nil, 77)
+		if hostile == 1 || hostile == 10 {
+			// the attacker makes the peers hash match whatever the victim will compute
+			block.Body.PeersHash = nil
+		}
+		d, _ := block.Body.Hash()
+		for i := 0; i < 3; i++ {
+			k := verifKey(i)
+			block.Signatures[keys.PublicKeyHex(&k.PublicKey)] = verifSignature(k, d, true)
+		}
+	})
+	if crashedEarly {
+		return
+	}
+	if verifChoice("nilSignatures", 2) == 1 {
+		block.Signatures = nil
+	}
+	verifCrashFree("fast-forward-hostile-response", func() { vc.c.fastForward(block, frame) })
 	verifReach("end")
 }
